@@ -476,7 +476,8 @@ def run_scenario(args):
                 import nasim, os
                 ypath = os.path.join(C.REPO, "nasim", "scenarios", "benchmark", "tiny.yaml")
                 res["entry_points"] = (C.entry_point_flags(lambda **kw: nasim.load(ypath, **kw), "nasim.load")
-                                       + C.entry_point_flags(lambda **kw: nasim.generate(5, 2, seed=1, **kw), "nasim.generate"))
+                                       + C.entry_point_flags(lambda **kw: nasim.generate(5, 2, seed=1, **kw), "nasim.generate")
+                                       + C.gym_registrations())
         res["shape"] = getattr(sc, "_shape", kind)
         res["hosts"] = len(sc.hosts)
         lines = C.scenario_lines(sc)
